@@ -293,6 +293,11 @@ func (r *DenseInt64Matrix) MdotM(a, b ConstMatrix) Matrix {
   if n1 != n || m2 != m || m1 != n2 {
     panic("matrix dimensions do not match!")
   }
+  if r.storageLocation() == a.storageLocation() && r.storageLocation() == b.storageLocation() {
+    // the result overwrites both factors: the column-wise schedule below
+    // would read overwritten elements of the left factor
+    a = a.CloneConstMatrix()
+  }
   t1 := int64(0)
   t2 := int64(0)
   if r.storageLocation() == b.storageLocation() {
@@ -334,6 +339,11 @@ func (r *DenseInt64Matrix) MDOTM(a, b *DenseInt64Matrix) Matrix {
   n2, m2 := b.Dims()
   if n1 != n || m2 != m || m1 != n2 {
     panic("matrix dimensions do not match!")
+  }
+  if r.storageLocation() == a.storageLocation() && r.storageLocation() == b.storageLocation() {
+    // the result overwrites both factors: the column-wise schedule below
+    // would read overwritten elements of the left factor
+    a = a.Clone()
   }
   t1 := int64(0)
   t2 := int64(0)
